@@ -36,6 +36,8 @@ type argT struct {
 //	struct   var t0 = T{fx: lg("t0", args…)}
 //	mvalue   var mv0 = lgf("mv0", t0.m0)         (Recv = t0, Meth = m0)
 //	blank    var _ = lg("x0", args…)             (Label = x0)
+//	mapvar   var mp0 = map[int]int{7: lg("mp0", args…)}
+//	commaok  var v0, ok0 = mp0[lg("v0", args…)]    (Recv = mp0; package-level comma-ok declaration, accepted since 2d7bcd6)
 type varT struct {
 	Kind  string   `json:"kind"`
 	Names []string `json:"names"`
@@ -130,6 +132,8 @@ func (c caseT) intNames() []string {
 	var out []string
 	for _, v := range c.Vars {
 		switch v.Kind {
+		case "commaok":
+			out = append(out, v.Names[0])
 		case "int", "novalue", "multi", "paired":
 			for _, n := range v.Names {
 				if n != "_" {
@@ -238,6 +242,10 @@ func varSrc(v varT, px string) string {
 		return fmt.Sprintf("var %s = T{fx: lg(%q%s)}", v.Names[0], px+v.Names[0], argsSrc(argsOf(v, 0)))
 	case "mvalue":
 		return fmt.Sprintf("var %s = lgf(%q, %s.%s)", v.Names[0], px+v.Names[0], v.Recv, v.Meth)
+	case "mapvar":
+		return fmt.Sprintf("var %s = map[int]int{7: lg(%q%s)}", v.Names[0], px+v.Names[0], argsSrc(argsOf(v, 0)))
+	case "commaok":
+		return fmt.Sprintf("var %s = %s[lg(%q%s)]", strings.Join(v.Names, ", "), v.Recv, px+v.Names[0], argsSrc(argsOf(v, 0)))
 	}
 	return "// ?"
 }
@@ -391,6 +399,10 @@ func (c caseT) mainSrc() string {
 			b.WriteString(", " + v.Names[0] + ".fx")
 		case "mvalue":
 			b.WriteString(", " + v.Names[0] + "()")
+		case "mapvar":
+			b.WriteString(", len(" + v.Names[0] + ")")
+		case "commaok":
+			b.WriteString(", " + v.Names[1])
 		}
 	}
 	for _, im := range c.Imports {
@@ -585,6 +597,37 @@ func argIds(a argT) []string {
 	return nil
 }
 
+func argIdsAll(as []argT) []string {
+	var items []string
+	for _, a := range as {
+		items = append(items, argIds(a)...)
+	}
+	return items
+}
+
+// operandLater: the comma-ok declaration k stands before the declaration of its map operand, in the
+// order in which the declarations of the package are read (the layout; files are consecutive pieces of it).
+func (c caseT) operandLater(k int) bool {
+	v := c.Vars[k]
+	if v.Kind != "commaok" {
+		return false
+	}
+	pos := func(code string) int {
+		for i, it := range c.Layout {
+			if it == code {
+				return i
+			}
+		}
+		return -1
+	}
+	for j, w := range c.Vars {
+		if w.Kind == "mapvar" && w.Names[0] == v.Recv {
+			return pos(fmt.Sprintf("v%d", j)) > pos(fmt.Sprintf("v%d", k))
+		}
+	}
+	return false
+}
+
 func idsOf(head string, as []argT) string {
 	var items []string
 	if head != "" {
@@ -596,10 +639,14 @@ func idsOf(head string, as []argT) string {
 	return common.L(items...)
 }
 
-func varSexp(v varT, late bool, px string) string {
-	items := []string{common.QL(v.Names), common.B(late && v.Kind == "multi")}
+func varSexp(v varT, late, opLate bool, px string) string {
+	items := []string{common.QL(v.Names), common.B(late && v.Kind == "multi"), common.B(opLate && v.Kind == "commaok")}
 	switch v.Kind {
-	case "int", "struct":
+	case "commaok":
+		// m[k]: the map operand is met first, then the index expression
+		ids := append([]string{id(v.Recv, true), id("lg", true)}, argIdsAll(argsOf(v, 0))...)
+		items = append(items, common.L(common.Q(px+v.Names[0]), common.L(ids...)))
+	case "int", "struct", "mapvar":
 		items = append(items, common.L(common.Q(px+v.Names[0]), idsOf("lg", argsOf(v, 0))))
 	case "blank":
 		items = append(items, common.L(common.Q(px+v.Label), idsOf("lg", argsOf(v, 0))))
@@ -639,7 +686,7 @@ func (c caseT) declSexp(code string) []string {
 	fmt.Sscanf(code[1:], "%d", &k)
 	switch code[0] {
 	case 'v':
-		v := varSexp(c.Vars[k], c.LateTwo, c.Prefix)
+		v := varSexp(c.Vars[k], c.LateTwo, c.operandLater(k), c.Prefix)
 		return []string{"(var " + v[1:]}
 	case 'f':
 		f := c.Funcs[k]
